@@ -22,6 +22,8 @@ def may_throw_elem(e):
     if k not in CALL_KINDS:
         return False
     c = n.get("callee") or ""
+    if c in ("abort", "std::abort", "std::terminate", "exit", "_Exit", "_exit", "std::exit", "std::quick_exit"):
+        return False      # does not return and does not unwind
     if c.startswith("std::") and c.split("::")[-1] in NOTHROW_STD:
         return False
     if k == "ctor" and n.get("cls", "").startswith(("std::lock_guard", "std::unique_lock", "std::shared_lock")):
@@ -275,8 +277,9 @@ class Forward:
     States must be hashable/comparable with ==.  `top` is the identity of join (unvisited).
     """
 
-    def __init__(self, f, init, transfer, join, edge=None, eh=True, eh_filter=None):
+    def __init__(self, f, init, transfer, join, edge=None, eh=True, eh_filter=None, eh_after=False):
         self.f = f
+        self.eh_after = eh_after   # exception edges carry the state AFTER the throwing element (for "was invoked" ghosts)
         self.transfer = transfer
         self.join = join
         self.edge = edge
@@ -301,7 +304,8 @@ class Forward:
             st = self.block_in[bid]
             for e in b.elems:
                 if self.eh and e.try_id and may_throw_elem(e):
-                    est = self.eh_filter(st, e) if self.eh_filter else st
+                    est0 = self.transfer(st, e) if self.eh_after else st
+                    est = self.eh_filter(est0, e) if self.eh_filter else est0
                     for t in eh_targets(f, e):
                         self._merge(t, est, work, inq)
                 st = self.transfer(st, e)
